@@ -14,6 +14,7 @@ package main
 
 import (
 	"fmt"
+	"io/fs"
 	"math/big"
 	"os"
 	"path/filepath"
@@ -108,7 +109,10 @@ func (h *memBasic) Save(data []byte, dir, name string) error {
 		h.put(dir, name, data)
 	}
 	h.mu.Unlock()
-	h.saved <- struct{}{}
+	select {
+	case h.saved <- struct{}{}:
+	default: // nobody is waiting for this Save
+	}
 	return err
 }
 
@@ -130,7 +134,8 @@ func (h *memBasic) Delete(dir, name string) error {
 		return nil
 	}
 	if !ok {
-		return fmt.Errorf("no such file")
+		// what os.Remove reports for a missing file
+		return &fs.PathError{Op: "remove", Path: dir + "/" + name, Err: fs.ErrNotExist}
 	}
 	delete(h.files[dir], name)
 	return nil
@@ -254,6 +259,18 @@ func (b *ppBackend) Disk() []int {
 	return b.idsOnDisk()
 }
 
+func (b *ppBackend) PutExternal(v int) {
+	pp := b.Make(v)
+	bytes, err := pp.Marshal()
+	if err != nil {
+		return
+	}
+	_, ts := dkg.VerifC39PreParamsFields(pp)
+	b.h.mu.Lock()
+	b.h.put(dkg.VerifC39DirName, fmt.Sprintf("pp_%d_manualcopy", ts.UnixMilli()), bytes)
+	b.h.mu.Unlock()
+}
+
 // BeforeRestart: a valid parameter file that lives in another directory must never be loaded.
 func (b *ppBackend) BeforeRestart() {
 	pp := b.Make(9000)
@@ -281,7 +298,7 @@ func execPPool(f []string) (string, string) {
 	return obs, "real+" + tag
 }
 
-var ppStepKinds = []string{"g", "g", "g", "g", "gf", "gw", "gn", "gc", "gt", "t", "t", "t", "t", "tf", "tb", "ta", "r", "r", "rf"}
+var ppStepKinds = []string{"g", "g", "g", "g", "gf", "gw", "gn", "gc", "gt", "gx", "gx", "t", "t", "t", "t", "tf", "tb", "ta", "r", "r", "rf"}
 
 func genPPool(r *hx.Rng) string {
 	size := r.Range(1, 4)
